@@ -458,6 +458,19 @@ class DWorld:
         self.diagram = vm.alloc(cls(vm, CD, "ClassDiagram"), {"_dependency_graph": self.graph, "_cls_wrapped_cls_map": self.cmap,
                                                              "introspector": self.introspector}, tag="diagram")
         self.owned.append(self.diagram)
+        # whatever further state the diagram class declares (e.g. a cache added later) exists with its declared default, as
+        # the dataclass constructor would create it - the sidecar does not enumerate the fields of ClassDiagram
+        from pyvc.interp import Frame as _Frame
+        for f in cls(vm, CD, "ClassDiagram").dataclass_fields(vm.loader):
+            if f.name in self.diagram.fields or f.initvar:
+                continue
+            try:
+                if f.default_factory is not None:
+                    self.diagram.fields[f.name] = vm.call(vm.ev(f.default_factory, _Frame(vm, f.owner.module)), [], {})
+                elif f.has_default and f.default is not None:
+                    self.diagram.fields[f.name] = vm.ev(f.default, _Frame(vm, f.owner.module))
+            except Exception:
+                pass
         vm.spec.opaque_hooks["issubclass"] = self.issubclass
         vm.spec.opaque_hooks["binop"] = lambda it, op, a, b: AbstractBag(self, "binop")
         vm.spec.opaque_hooks["collect_stream"] = lambda it, stream, kind: AbstractBag(self, f"{kind}({stream.name})", stream)
@@ -994,6 +1007,51 @@ def h_frame_sequence(op1, op2):
     return Harness(f"frame-{op1}-then-{op2}", run, spec=Spec(), covers=["returned"], max_paths=6000)
 
 
+def h_frame_derived(op2):
+    """derive a sub-diagram, then run a read-only operation ON THE DERIVED VIEW: nothing the original diagram holds (graph, class
+    map, nodes, relations, caches) is written."""
+    def run(vm):
+        ctx = vm.ctx
+        D = DWorld(vm)
+        CDc = cls(vm, CD, "ClassDiagram")
+        vm.loader.module(CD).values["RWXNode"] = Builtin("RWXNode", lambda it, fr, a, k: RWX(D))
+        vm.spec.attr_hooks[("WrappedField", "is_role_taker")] = lambda it, wf: it.ctx.choice(2, "is-role-taker?") == 0
+        state = {"since": None, "held": []}
+
+        def bad_writes():
+            if state["since"] is None:
+                return []
+            since, held = state["since"], state["held"]
+            return [w for w in diag_writes(ctx, since) if getattr(w[1], "role", None) == "original"] + \
+                   [x for x in attr_writes(ctx, since) if x[0] in D.owned] + \
+                   [e[1] for e in ctx.effects[since:] if e[0] == "mutate" and any(e[1][0] is h for h in held)]
+        for m in CDc.methods:
+            for k in range(6):
+                vm.spec.loops[(f"ClassDiagram.{m.split('@')[0]}", k)] = LoopSpec(inv=lambda it, fr: z3.BoolVal(not bad_writes()))
+        sub = vm.call_method(D.diagram, "to_subdiagram_without_inherited_associations", ctx.choice(2, "include_field_name") == 0)
+        if not isinstance(sub, Obj) or sub is D.diagram:
+            ctx.fail("ClassDiagram.to_subdiagram_without_inherited_associations::returns-a-different-diagram")
+            return
+        state["since"] = len(ctx.effects)
+        state["held"] = reachable_containers(D)
+        mk = READ_ONLY[op2]
+        try:
+            if mk is None:
+                vm._getattr(sub, op2)
+            else:
+                args, kwargs = mk(vm, D)
+                r = vm.call_method(sub, op2, *args, **kwargs)
+                if hasattr(r, "it") or isinstance(r, SymStream):
+                    for _ in zip(range(2), vm.iterate(r)):
+                        pass
+        except PyRaise as pr:
+            if not (isinstance(pr.exc.cls, ClassInfo) and pr.exc.cls.name == "ClassIsUnMappedInClassDiagram"):
+                raise
+        ctx.check(f"ClassDiagram.{op2}::frame-on-a-derived-view-writes-nothing-the-original-holds", z3.BoolVal(not bad_writes()), detail=repr(bad_writes()))
+        ctx.cover("returned")
+    return Harness(f"frame-derived-{op2}", run, spec=Spec(), covers=["returned"], max_paths=8000)
+
+
 def h_canary():
     def run(vm):
         W = world(vm)
@@ -1005,4 +1063,4 @@ def h_canary():
 
 
 def harnesses():
-    return [h_classification(), h_forward_references(), h_role_taker(), h_add_node(), h_post_init(), h_inheritance(), h_association(), h_fields()] + [h_frame(op) for op in READ_ONLY] + [h_frame_sequence(a, b) for a in FIRST_OPS for b in READ_ONLY] + [h_canary()]
+    return [h_classification(), h_forward_references(), h_role_taker(), h_add_node(), h_post_init(), h_inheritance(), h_association(), h_fields()] + [h_frame(op) for op in READ_ONLY] + [h_frame_sequence(a, b) for a in FIRST_OPS for b in READ_ONLY] + [h_frame_derived(b) for b in READ_ONLY if not b.startswith('to_subdiagram')] + [h_canary()]
